@@ -14,7 +14,7 @@ ASSUMPTIONS = ["the model's reduced scene takes its wall mask from the boundary 
 TRUSTED = ["correspondence harness (bit-exact, dyadic regime)"]
 LEVEL_TEXT = ("Theorems (PML-free scenes, plane normal to x, any grid/materials/sources): (1) if the full-domain tangential E vanishes on the plane row after its "
               "update, one step of the reduced scene equals the restriction of the full step on every kept cell; (2) mirror parity of the full state implies that "
-              "premise. The light-cone induction over several steps, the other axes (via C08) and co-located detector records are checked by the correspondence "
+              "premise. The light-cone induction over several steps, the other axes (via C08) and co-located detector records (a domain-spanning exact-interpolation field detector, unfolded) are checked by the correspondence "
               "and the implementation predicate.")
 LEVEL_NOTE = "PARTIAL: one-step theorems; multi-step light-cone statement and unfolded detector records are measured."
 TECHNIQUE = "Coq proof (index shift + wall mask, per-component case analysis on the plane row) + differential reduced/full runs"
@@ -33,7 +33,14 @@ def gen_cases(ctx):
                 else:
                     k = ctx.rng.choice(["periodic", "pec", "pmc"])
                     bt["min_" + ax] = bt["max_" + ax] = k
-            cases.append({"axis": axis, "shape": shape, "bt": bt, "steps": 2 if ctx.quick else 3, "seed": ctx.rng.randint(0, 10**6)})
+            c = {"axis": axis, "shape": shape, "bt": bt, "steps": 2 if ctx.quick else 3, "seed": ctx.rng.randint(0, 10**6)}
+            if rep == 0:      # co-located (exact_interpolation) field detector spanning the whole full domain, recorded at every step
+                shape[axis] = ctx.rng.choice([10, 12])
+                if axis != 2:          # a periodic in-plane transverse axis (the mirror halo's corner is only read through a wrap)
+                    tr = [a for a in range(2) if a != axis][0]
+                    bt["min_" + "xyz"[tr]] = bt["max_" + "xyz"[tr]] = "periodic"
+                c["det"] = [[0, s_] for s_ in shape]
+            cases.append(c)
     return cases
 
 
@@ -65,6 +72,12 @@ def predicate(case, out):
     for t, e in enumerate(out["cone_err"]):
         if e > 1e-12 * out["scale"]:
             return (f"reduction-differs:axis={case['axis']};bt={sorted(set(case['bt'].values()))}", f"unfolded reduced run differs from the full run inside the light cone at step {t + 1}: {e:.3e}")
+    if case.get("det"):
+        if out["det_shapes"][0] != out["det_shapes"][1]:
+            return ("reduction-detector-shape", f"unfolded detector record has shape {out['det_shapes'][0]}, full-domain record {out['det_shapes'][1]}")
+        for t, e in enumerate(out["det_err"]):
+            if e > 1e-12 * out["det_scale"]:
+                return (f"reduction-detector-differs:axis={case['axis']}", f"unfolded co-located detector record differs from the full-domain record inside the light cone at row {t}: {e:.3e}")
     walls = [w for w in out["walls"] if w[3]]
     if len(walls) != 1 or walls[0][0] != case["axis"] or walls[0][1] != "-" or "Electric" not in walls[0][2]:
         return ("symmetry-wall", f"expected exactly one PEC symmetry wall on the min face of axis {case['axis']}, got {out['walls']}")
